@@ -103,6 +103,9 @@ const HOSTILE: [&str; 12] = ["normalized_time", "frame_index", "time", "position
 fn fname(names: u8, k: usize) -> String {
     if names == 0 {
         format!("x{k}")
+    } else if names == 2 {
+        // a leading underscore says nothing about whether a field is animated
+        format!("_f{k}")
     } else if k < HOSTILE.len() {
         HOSTILE[k].to_string()
     } else {
@@ -167,7 +170,7 @@ fn ez17() -> impl Strategy<Value = Ez> {
 fn shape_strategy() -> impl Strategy<Value = Shape> {
     let field = (prop::sample::select(vec![Ty::F32, Ty::F64, Ty::U8, Ty::I16, Ty::I32, Ty::U32]), any::<bool>(), prop::sample::select(vec![Vis::Priv, Vis::Pub, Vis::PubCrate]), prop::bool::weighted(0.2))
         .prop_map(|(ty, marked, vis, decorated)| Field { ty, marked, vis, decorated });
-    (prop_oneof![40 => prop::collection::vec(field.clone(), 1..=6), 1 => prop::collection::vec(field.clone(), 33..=36), 1 => prop::collection::vec(field, 65..=68)], prop::sample::select(vec![Vis::Priv, Vis::Pub, Vis::PubCrate]), prop::bool::weighted(0.3), any::<bool>(), prop::bool::weighted(0.15), prop_oneof![3 => Just(0u8), 1 => Just(1u8)]).prop_flat_map(|(mut fields, struct_vis, remote, nested, none_marked, names)| {
+    (prop_oneof![40 => prop::collection::vec(field.clone(), 1..=6), 1 => prop::collection::vec(field.clone(), 33..=36), 1 => prop::collection::vec(field, 65..=68)], prop::sample::select(vec![Vis::Priv, Vis::Pub, Vis::PubCrate]), prop::bool::weighted(0.3), any::<bool>(), prop::bool::weighted(0.15), prop_oneof![6 => Just(0u8), 2 => Just(1u8), 1 => Just(2u8)]).prop_flat_map(|(mut fields, struct_vis, remote, nested, none_marked, names)| {
         if none_marked {
             for f in &mut fields {
                 f.marked = false;
